@@ -44,7 +44,7 @@ CLAIMED = {
          "needs kernel/driver fairness, stated not proved. The refinement lemma covers buffers from user pools (what the asynchronous API is handed) whose future is pending; sizes of the other queue elements are untouched by pool invariants (C10), not restated there.",
          "Coq proof (queue machine, all send-result sequences) + trace correspondence under a scripted virtual OS"),
  "C03": ("proof", "Theorems one_socket_per_step, socket_task_first_ready, socket_task_priority (data before disconnect), unregister_removes_both, "
-         "receive_delivers_what_recv_returned, disconnect_unregisters_first for every readiness vector; correspondence on async TCP sockets and acceptors with scripted "
+         "receive_delivers_what_recv_returned, disconnect_unregisters_first, disconnected_socket_is_never_dispatched_again (exactly one disconnect: once unregistered, no readiness vector makes the driver dispatch to that socket again) for every readiness vector; correspondence on async TCP sockets and acceptors with scripted "
          "readiness orders, stream segmentations, closes/errors at any point; handler events (kind, socket, payload checked byte-wise, peer address) compared and monitored.", "5 C03",
          TB + "Kernel readiness semantics trusted. 'Handlers run on the stepping thread' is structural in the model (handlers are invoked from step only).",
          "Coq proof (selection function, list alignment) + handler-event correspondence under a scripted virtual OS"),
